@@ -61,7 +61,7 @@ UNITS = {
     },
     "cors": {
         "preludes": ["shims/core.rs", "shims/env.rs"],
-        "specs": ["contracts/spec/hv.rs", "contracts/spec/cors.rs"],
+        "specs": ["contracts/spec/hv.rs", "contracts/spec/lookup.rs", "contracts/spec/cors.rs"],
         "sources": [
             SYMBOL_SRC,
             ("src/header/mod.rs", ["struct:Header", "consts:Header"]),
@@ -76,11 +76,11 @@ UNITS = {
     },
     "header_list": {
         "preludes": ["shims/core.rs", "shims/env.rs", "shims/time.rs"],
-        "specs": ["contracts/spec/hv.rs", "contracts/spec/cors.rs", "contracts/spec/headers.rs"],
+        "specs": ["contracts/spec/hv.rs", "contracts/spec/lookup.rs", "contracts/spec/cors.rs", "contracts/spec/headers.rs"],
         "sources": [
             SYMBOL_SRC,
             ("src/range/mod.rs", ["struct:Range", "consts:Range"]),
-            ("src/request/mod.rs", ["struct:Request", "struct:Method", "const:METHOD"]),
+            ("src/request/mod.rs", ["struct:Request", "struct:Method", "const:METHOD", "fn:Request::get_header:assume"]),
             ("src/entry_point/mod.rs", ["struct:Config", "consts:Config"]),
             ("src/cors/mod.rs", ["struct:Cors", "consts:Cors", "fn:Cors::get_vary_header_value:assume", "fn:Cors::get_headers:assume"]),
             ("src/client_hint/mod.rs", ["struct:ClientHint", "consts:ClientHint", "fn:ClientHint::get_client_hint_list",
@@ -90,12 +90,12 @@ UNITS = {
                                    "fn:Header::get_accept_ranges_header", "fn:Header::get_x_frame_options_header",
                                    "fn:Header::get_date_iso_8601_header", "fn:Header::get_no_cache_header", "fn:Header::get_header_list"]),
         ],
-        "contracts": ["contracts/cors.vc", "contracts/header.vc"],
+        "contracts": ["contracts/request.vc", "contracts/cors.vc", "contracts/header.vc"],
     },
     "server": {
         "uses": [],
         "preludes": ["shims/core.rs", "shims/bytes.rs", "shims/env.rs", "shims/io.rs"],
-        "specs": ["contracts/spec/hv.rs", "contracts/spec/http.rs", "contracts/spec/cors.rs", "contracts/spec/headers.rs", "contracts/spec/server.rs"],
+        "specs": ["contracts/spec/hv.rs", "contracts/spec/http.rs", "contracts/spec/lookup.rs", "contracts/spec/cors.rs", "contracts/spec/headers.rs", "contracts/spec/server.rs"],
         "sources": [
             SYMBOL_SRC,
             ("src/http/mod.rs", ["struct:Version", "const:VERSION"]),
@@ -114,14 +114,76 @@ UNITS = {
         ],
         "contracts": ["contracts/request.vc", "contracts/header.vc", "contracts/response.vc", "contracts/server.vc"],
     },
+    "request_parse": {
+        "preludes": ["shims/core.rs", "shims/bytes.rs", "shims/io.rs", "shims/cursor.rs"],
+        "specs": ["contracts/spec/hv.rs", "contracts/spec/lookup.rs", "contracts/spec/request.rs"],
+        "sources": [
+            SYMBOL_SRC,
+            ("src/http/mod.rs", ["struct:Version", "const:VERSION", "struct:HTTP", "fn:HTTP::version_list"]),
+            ("src/ext/string_ext/mod.rs", ["struct:StringExt", "fn:StringExt::truncate_new_line_carriage_return"]),
+            ("src/header/mod.rs", ["struct:Header", "consts:Header"]),
+            ("src/request/mod.rs", ["struct:Request", "struct:Method", "const:METHOD", "consts:Request", "fn:Request::get_header", "fn:Request::method_list",
+                                    "fn:Request::parse_method_and_request_uri_and_http_version_string", "fn:Request::parse_http_request_header_string",
+                                    "fn:Request::cursor_read", "fn:Request::parse_request", "fn:Request::parse"]),
+        ],
+        "contracts": ["contracts/request.vc"],
+    },
+    "request_gen": {
+        "preludes": ["shims/core.rs", "shims/bytes.rs"],
+        "specs": ["contracts/spec/hv.rs", "contracts/spec/request_gen.rs"],
+        "sources": [
+            SYMBOL_SRC,
+            ("src/header/mod.rs", ["struct:Header", "consts:Header"]),
+            ("src/request/mod.rs", ["struct:Request", "fn:Request::_generate_request", "fn:Request::generate_request", "fn:Request::generate"]),
+        ],
+        "contracts": ["contracts/request_gen.vc"],
+    },
 }
 for k, v in UNITS.items():
     v["name"] = k
 
+SAFETY_KINDS = ("precondition", "arithmetic-overflow", "division-by-zero", "index-bounds", "termination", "shift-overflow", "panic")
+
+
+def c04_counts(unit, f):
+    """C04 = panic freedom / termination / one response.  Functional postconditions of units shared with other
+    properties are reported under those properties; containment preconditions (fs_allowed) under C01."""
+    if unit == "server":
+        return True
+    if "fs_allowed" in f.snippet:
+        return False
+    return f.kind in SAFETY_KINDS
+
+
 PROPS = {
+    "C14": {
+        "units": ["request_parse", "request_gen"],
+        "level": "proof",
+        "falsifier": ["request"],
+        "samples": [
+            "Request::parse_method_and_request_uri_and_http_version_string / postcondition / res.is_ok() <==> request_line_ok(line)",
+            "Request::get_header / postcondition / first header whose name matches up to letter case",
+            "Request::parse_http_request_header_string / postcondition / hv(res) == header_of_line(line)  (value = everything after the first ': ')",
+            "Request::generate / postcondition / res@ == utf8_bytes(request_head(..)) + body",
+        ],
+        "assumptions": ["the serialise-then-parse round trip itself is NOT proved (the two halves are proved against their specifications separately)"],
+    },
+    "C04": {
+        "units": ["server", "request_parse", "range_parse"],
+        "level": "proof",
+        "falsifier": ["e2e"],
+        "case_prefixes": ["c04_"],
+        "known_cases": ["c04_panic|traversal x ::", "c04_panic|traversal .. ::"],
+        "counts": c04_counts,
+        "samples": ["Server::process / every unwrap, index, cast and arithmetic operation / panic-freedom for an arbitrary transport and Application",
+                    "Request::cursor_read / termination / decreases rem(old(cursor)).len()"],
+        "assumptions": ["stack depth of the per-header recursion in Request::cursor_read is not expressible (termination is proved, a stack bound is not)"],
+    },
     "C10": {
         "units": ["header_list", "cors", "server"],
         "level": "proof",
+        "falsifier": ["e2e"],
+        "case_prefixes": ["c10_"],
         "samples": [
             "Header::get_header_list / postcondition / exists now: hvs(res@) == cors_headers_expected(*request) + fixed_headers(now)",
             "Server::bad_request_response / postcondition / is_bad_request(res@, message@)  (the 400 answer serialises exactly fixed_headers)",
@@ -129,9 +191,10 @@ PROPS = {
         "assumptions": [],
     },
     "C05": {
-        "units": ["response_gen", "server", "header_list", "cors"],
+        "units": ["response_gen", "server", "header_list", "cors", "request_parse"],
         "level": "proof",
-        "falsifier": ["response"],
+        "falsifier": ["response", "e2e"],
+        "case_prefixes": ["c05_", "generate_response"],
         "samples": [
             "Response::generate_response / postcondition / res@ == response_bytes(...)  (status-line CRLF *(name ': ' value CRLF) CRLF body; Content-Length == dec(body.len()); no body for HEAD/OPTIONS)",
             "Server::process / assertion / one_response(sent0, stream.sent())  at every exit that follows a successful write_all (arbitrary Read+Write transport, arbitrary Application)",
